@@ -284,7 +284,54 @@ int g1 = G();
 #if Y
 int y;
 #endif
+#ifdef PROBE
+#if PROBE
+int probe_if;
+#endif
+#if PROBE(1)
+int probe_if_call;
+#endif
+#if 0
+#elif PROBE(1, 2) || PROBE
+#endif
+#if defined(PROBE) && W(PROBE)
+#endif
+int p1 = PROBE;
+int p2 = PROBE(1);
+int p3 = W(PROBE) + W(PROBE(2));
+#endif
 """
+
+# hostile bodies / heads of command-line definitions; the carrier (DEFINE_MAIN) uses PROBE from #if, #if PROBE(1),
+# #elif, an argument of W() and plain text
+DEF_BODIES = [
+    b'W(1) && W("q\\', b'W("q\\', b"W('q\\", b'W("q', b"W('q", b'W("q\\")', b'W("q\\\\', b'W(1', b'W(', b'W((1)', b'W(1))', b'W', b'W)',
+    b'W(1) W(2', b'W(,)', b'W(1,2)', b'W("a,b")', b"W(')')", b"W('\\'')", b'W(W(W(1)))', b'W(W(W(1', b'W(PROBE)', b'W(PROBE(1))',
+    b'"abc', b"'a", b'"\\', b"'\\", b'\\', b'a\\', b'1 \\', b'"a" \\', b'(', b')', b'((1)', b'(1))', b'[', b'{', b'<',
+    b'#', b'##', b'#a', b'# a', b'a#', b'a##', b'##a', b'a ## b', b'a ## ## b', b'#\\', b'##\\',
+    b'PROBE', b'PROBE(1)', b'PROBE + 1', b'(PROBE)', b'PROBE PROBE', b'!PROBE', b'defined(PROBE)', b'defined(', b'defined', b'defined PROBE',
+    b'__VA_ARGS__', b'__VA_OPT__(', b'__VA_OPT__(x)', b'1/0', b'1%0', b'1 ? 2', b'1 ?', b'R"(', b'R"x(abc', b'/*', b'//', b'/* c */ 1', b'0x', b'1e', b'1e+',
+    b'', b' ', b'\t', b'\n1', b'1\n#error e', b'a\nb', b'1 2', b'1,2', b'a b c', b'__has_include(', b'__has_include(<', b'__has_include("',
+    b'\xff', b'\xc3', b'1\xffa', b'"\xff', b'L"', b'u8"x', b"L'", b'1L"', b'x"y', b"x'y",
+]
+DEF_HEADS = [b"PROBE=", b"PROBE(a)=", b"PROBE(a,b)=", b"PROBE(...)=", b"PROBE()="]
+DEF_ODD_HEADS = [b"PROBE(=", b"PROBE(a=", b"PROBE(a,=", b"PROBE(a", b"PROBE(", b"PROBE)", b"PROBE(a)(b)=", b"PROBE(1)=", b"PROBE(a,a)=",
+                 b"PROBE(a,...,b)=", b"PROBE(a...)=", b"PROBE (a)=", b"PROBE =", b"PROBE==", b"=", b"", b" =1", b"1PROBE=", b"PROBE",
+                 b"PROBE(a)", b"PROBE\n=", b"W=", b"W(x)=PROBE\x01", b"defined=", b"__VA_ARGS__=", b"PROBE(__VA_ARGS__)="]
+
+
+def def_enumeration():
+    """seed independent: (label, [definitions]).  -D'W(x)=x' plus one PROBE definition: every head x every body,
+    and the odd heads with three bodies."""
+    out = []
+    for hi, h in enumerate(DEF_HEADS):
+        for bi, body in enumerate(DEF_BODIES):
+            out.append(("def_h%d_b%d" % (hi, bi), [b"W(x)=x", h + body]))
+    for hi, h in enumerate(DEF_ODD_HEADS):
+        for bi, body in enumerate((b"1", b'W("q\\', b"PROBE")):
+            d = h + body
+            out.append(("def_odd%d_b%d" % (hi, bi), [b"W(x)=x", d] if d else [b"W(x)=x", b""]))
+    return [(lab, [x.replace(b"\0", b"\1") for x in ds]) for lab, ds in out]
 
 # ---------------------------------------------------------------------------
 # dictionary of edge literals (DESIGN C15) -- each is inserted alone on a line (LINE_DICT)
@@ -1337,7 +1384,13 @@ def gen_defines(rng, corp):
     if r < 0.1:
         return "d_identity", base
     i = rng.randrange(len(base))
-    if r < 0.45:
+    if r < 0.3:
+        h = rng.choice(DEF_HEADS + DEF_ODD_HEADS)
+        body = rng.choice(DEF_BODIES)
+        if rng.random() < 0.4:
+            body = body + rng.choice((b" ", b" && ", b"", b"+")) + rng.choice(DEF_BODIES)
+        return "d_probe", [b"W(x)=x", (h + body).replace(b"\0", b"\1")[:2000]]
+    if r < 0.5:
         name = rng.choice((b"X", b"Y", b"F(a,b)", b"F(", b"F(a", b"F()", b"V(...)", b"V(a,...)", b"G()", b"", b"1", b"F(a,a)", b"F(1)", b"X Y", b"(", b"X)"))
         body = b" ".join(rng.choice(TOKEN_DICT) for _ in range(rng.randrange(0, 4)))
         base[i] = name + rng.choice((b"=", b"=", b"", b"==")) + body
